@@ -182,7 +182,14 @@ func toMsg(c *Comp) chat.Message {
 }
 
 // fromMsg maps a chat.Message back into the model; err names what the model cannot express.
-func fromMsg(m chat.Message) (*Comp, error) {
+func fromMsg(m chat.Message) (*Comp, error) { return fromMsgDepth(m, 0) }
+
+// fromMsgDepth bounds the nesting: generated components nest at most a few levels, so a decoded
+// value deeper than 64 levels is cyclic or garbage (it is reported as a mismatch, never followed).
+func fromMsgDepth(m chat.Message, depth int) (*Comp, error) {
+	if depth > 64 {
+		return nil, fmt.Errorf("decoded component nests deeper than 64 levels (cyclic value?)")
+	}
 	c := &Comp{Text: m.Text, Bold: m.Bold, Italic: m.Italic, Underlined: m.UnderLined, Strikethrough: m.StrikeThrough,
 		Obfuscated: m.Obfuscated, Color: m.Color, Font: m.Font, Insertion: m.Insertion, Translate: m.Translate}
 	if m.ClickEvent != nil {
@@ -192,7 +199,7 @@ func fromMsg(m chat.Message) (*Comp, error) {
 		if m.HoverEvent.Contents != nil {
 			return nil, fmt.Errorf("hoverEvent.contents=%T", m.HoverEvent.Contents)
 		}
-		v, err := fromMsg(m.HoverEvent.Value)
+		v, err := fromMsgDepth(m.HoverEvent.Value, depth+1)
 		if err != nil {
 			return nil, err
 		}
@@ -204,13 +211,13 @@ func fromMsg(m chat.Message) (*Comp, error) {
 			s := a
 			c.With = append(c.With, Arg{Str: &s})
 		case chat.Message:
-			v, err := fromMsg(a)
+			v, err := fromMsgDepth(a, depth+1)
 			if err != nil {
 				return nil, err
 			}
 			c.With = append(c.With, Arg{Comp: v})
 		case *chat.Message:
-			v, err := fromMsg(*a)
+			v, err := fromMsgDepth(*a, depth+1)
 			if err != nil {
 				return nil, err
 			}
@@ -220,7 +227,7 @@ func fromMsg(m chat.Message) (*Comp, error) {
 		}
 	}
 	for _, e := range m.Extra {
-		v, err := fromMsg(e)
+		v, err := fromMsgDepth(e, depth+1)
 		if err != nil {
 			return nil, err
 		}
